@@ -198,11 +198,16 @@ func runBulk(p BulkPlan, record bool) *bulkResult {
 		mu.Unlock()
 	}
 
+	// every goroutine owns ONE key and ONE value buffer for all its arguments (owned.go)
+	cls := make([]*caller, 1+bulkWriters+bulkReaders)
+
 	// large operations
 	wg.Add(1)
 	go func() {
 		defer wg.Done()
 		defer guard("large-op goroutine")
+		cl := newCaller("large-op goroutine")
+		cls[0] = cl
 		barrier()
 		var out []bigRec
 		for si, st := range p.Big {
@@ -226,17 +231,18 @@ func runBulk(p BulkPlan, record bool) *bulkResult {
 				for i := 0; i < st.Size; i++ {
 					k := bulkKey(i)
 					if i%7 == 3 {
-						_ = b.Delete([]byte(k))
+						_ = cl.BDelete(b, k)
 						br.dels[k] = true
 					} else {
 						val := fmt.Sprintf("b%d.%d.%d", p.Idx, si, i)
-						_ = b.Set([]byte(k), []byte(val))
+						_ = cl.BSet(b, k, val)
 						br.sets[k] = val
 					}
 				}
 				br.call = now()
 				err = b.Commit()
 				br.ret = now()
+				cl.batchDone() // the values of the batch are overwritten now that Commit has returned
 				if err != nil {
 					br.err = err.Error()
 				}
@@ -247,7 +253,7 @@ func runBulk(p BulkPlan, record bool) *bulkResult {
 				if st.Kind == "clear" {
 					err = v.Clear()
 				} else {
-					err = v.DeletePrefix([]byte(prefix))
+					err = cl.DeletePrefix(v, prefix)
 				}
 				br.ret = now()
 				if err != nil {
@@ -262,9 +268,9 @@ func runBulk(p BulkPlan, record bool) *bulkResult {
 				var err error
 				br.call = now()
 				if st.Kind == "iterate" {
-					err = v.Iterate([]byte(prefix), func(k, val []byte) bool { br.items[realm+string(k)] = string(val); return true }, dir)
+					err = cl.Iterate(v, prefix, func(k, val string) bool { br.items[realm+k] = val; return true }, dir)
 				} else {
-					err = v.IterateKeys([]byte(prefix), func(k []byte) bool { br.items[realm+string(k)] = ""; return true }, dir)
+					err = cl.IterateKeys(v, prefix, func(k string) bool { br.items[realm+k] = ""; return true }, dir)
 				}
 				br.ret = now()
 				if err != nil {
@@ -288,6 +294,8 @@ func runBulk(p BulkPlan, record bool) *bulkResult {
 			defer wg.Done()
 			who := fmt.Sprintf("writer %d", w)
 			defer guard(who)
+			cl := newCaller(who)
+			cls[1+w] = cl
 			rng := rand.New(rand.NewSource(p.WSeed + int64(w)))
 			realm := ""
 			if p.WNested[w] {
@@ -300,12 +308,12 @@ func runBulk(p BulkPlan, record bool) *bulkResult {
 			barrier()
 			for j := 0; j < p.Writes; j++ {
 				k := keys[rng.Intn(len(keys))]
-				arg := []byte(strings.TrimPrefix(k, realm))
+				arg := strings.TrimPrefix(k, realm)
 				switch x := rng.Intn(20); {
 				case x < 16:
 					val := fmt.Sprintf("w%d.%d", w, j)
 					c := now()
-					err := v.Set(arg, []byte(val))
+					err := cl.Set(v, arg, val)
 					r := now()
 					if err != nil {
 						fail(who + " Set: " + err.Error())
@@ -313,7 +321,7 @@ func runBulk(p BulkPlan, record bool) *bulkResult {
 					local[k] = append(local[k], bmut{c, r, val, false, who})
 				case x < 18:
 					c := now()
-					err := v.Delete(arg)
+					err := cl.Delete(v, arg)
 					r := now()
 					if err != nil {
 						fail(who + " Delete: " + err.Error())
@@ -321,12 +329,12 @@ func runBulk(p BulkPlan, record bool) *bulkResult {
 					local[k] = append(local[k], bmut{c, r, "", true, who})
 				default:
 					c := now()
-					val, err := v.Get(arg)
+					val, err := cl.Get(v, arg)
 					r := now()
 					if err != nil && !errors.Is(err, kvstore.ErrKeyNotFound) {
 						fail(who + " Get: " + err.Error())
 					}
-					obs = append(obs, bobs{k, c, r, string(val), err == nil, who})
+					obs = append(obs, bobs{k, c, r, val, err == nil, who})
 				}
 				if rng.Intn(8) == 0 {
 					runtime.Gosched()
@@ -348,6 +356,8 @@ func runBulk(p BulkPlan, record bool) *bulkResult {
 			defer wg.Done()
 			who := fmt.Sprintf("reader %d", rd)
 			defer guard(who)
+			cl := newCaller(who)
+			cls[1+bulkWriters+rd] = cl
 			rng := rand.New(rand.NewSource(p.WSeed + 1000 + int64(rd)))
 			v := mk("", false)
 			var obs []bobs
@@ -361,12 +371,12 @@ func runBulk(p BulkPlan, record bool) *bulkResult {
 					k = ks[rng.Intn(len(ks))]
 				}
 				c := now()
-				val, err := v.Get([]byte(k))
+				val, err := cl.Get(v, k)
 				r := now()
 				if err != nil && !errors.Is(err, kvstore.ErrKeyNotFound) {
 					fail(who + " Get: " + err.Error())
 				}
-				obs = append(obs, bobs{k, c, r, string(val), err == nil, who})
+				obs = append(obs, bobs{k, c, r, val, err == nil, who})
 				if rng.Intn(8) == 0 {
 					runtime.Gosched()
 				}
@@ -377,6 +387,7 @@ func runBulk(p BulkPlan, record bool) *bulkResult {
 		}(rd)
 	}
 	waitRound(&wg, record) // race build: structural dead-lock watch instead of the runtime detector
+	own.absorb(map[string]any{"bulk": p}, cls...)
 	// final state through the unwrapped root (includes nothing but the base realm)
 	_ = db.Iterate(kvstore.EmptyPrefix, func(k, v []byte) bool {
 		res.final[strings.TrimPrefix(string(k), baseRealm)] = string(v)
